@@ -235,7 +235,7 @@ class C07:
 
 # ---------------------------------------------------------------- value sets
 def raw_values(chk):
-    if chk.thorough:
+    if chk.big:
         return list(range(65536))
     vals = set(range(0, 65536, 16))
     vals.update([0, 1, 2, 3, 255, 256, 257, 32766, 32767, 32768, 32769, 65533, 65534, 65535])
@@ -245,13 +245,13 @@ def raw_values(chk):
 
 def logical_grid(chk):
     """values of a logical component: a grid over and beyond the valid range"""
-    step = F(1, 64) if chk.thorough else F(1, 4)
+    step = F(1, 64) if chk.big else F(1, 4)
     vals = set()
     x = F(-50)
     while x <= 500:
         vals.add(float(x))
         x += step
-    if not chk.thorough:
+    if not chk.big:
         for _ in range(600):
             vals.add(chk.rng.randrange(-50 * 64, 500 * 64 + 1) / 64.0)
     return sorted(vals)
@@ -288,9 +288,12 @@ def main():
     if '--replay' in sys.argv:
         return replay(chk, sys.argv[sys.argv.index('--replay') + 1])
     chk.lean_phase(sections={'Units'})
+    # a proof or the tie no longer checks: search with the thorough-sized generation (DESIGN §5)
+    chk.big = chk.thorough or bool(chk.broken)
+    chk.coverage['escalated_search'] = bool(chk.broken) and not chk.thorough
     t = C07(chk)
     rng = chk.rng
-    quick = not chk.thorough
+    quick = not chk.big
     raws = raw_values(chk)
     perm = lambda x: (x * 40503 + 7) % 65536  # noqa: E731  a permutation of 0..65535
 
@@ -345,11 +348,11 @@ def main():
             t.requests.append(('u.r2l2r', [str(x)], cb))
     t.stats['raw_logical_raw_values'] = len(r2l)
     # registers after `get`, printed, in logical and rgb units, against the exact model
-    sample = raws if chk.thorough else raws[::8]
+    sample = raws if chk.big else raws[::8]
     for mode, fn in (('logical', 'raw_to_logical'), ('rgb', 'raw_to_rgb')):
         t.function_level(fn, [(x, 65535 - x, perm(x), 3000) for x in sample])
     printed = []
-    for x in sample[:: (16 if chk.thorough else 4)]:
+    for x in sample[:: (16 if chk.big else 4)]:
         printed.append((x, 'units raw hue {x} saturation {y} brightness {z} kelvin 3000 set "A" '
                            'units logical get "A" print hue print saturation print brightness '
                            'print kelvin'.format(x=x, y=65535 - x, z=perm(x))))
@@ -386,7 +389,7 @@ def main():
                                       'duration': x}, 'light'))
     t.run_cases(cases)
     for kind in uc.COLOR_KINDS[1:]:
-        sub = cases if chk.thorough else rng.sample(cases, 1200) + cases[-len(special):]
+        sub = cases if chk.big else rng.sample(cases, 1200) + cases[-len(special):]
         t.run_cases([Case(c.mode, c.regs, kind) for c in sub])
     # kelvin: passes through (nearest integer, clamped)
     kel = [0, 1, 1500, 2700, 2700.5, 2701.5, 9000, 65535, 65535.5, 65536, 70000, -1, -0.5, 0.5, 1e9]
@@ -394,13 +397,13 @@ def main():
     kc = []
     for mode in uc.MODES:
         for k in kel:
-            for kind in (uc.COLOR_KINDS if chk.thorough else ('light', 'all', 'zone', 'matrix')):
+            for kind in (uc.COLOR_KINDS if chk.big else ('light', 'all', 'zone', 'matrix')):
                 kc.append(Case(mode, {'hue': 10, 'saturation': 20, 'brightness': 30, 'red': 10,
                                       'green': 20, 'blue': 30, 'kelvin': k}, kind))
     t.run_cases(kc)
 
     # ---- 4. rgb triples on a grid (+ dyadic random, + out of range)
-    steps = 33 if chk.thorough else 9
+    steps = 33 if chk.big else 9
     axis = [100.0 * i / (steps - 1) for i in range(steps)]
     triples = [(r, g, b) for r in axis for g in axis for b in axis]
     for _ in range(1500 if quick else 20000):
@@ -421,14 +424,14 @@ def main():
                        'duration': (i % 97) / 8.0}, 'light') for i, (r, g, b) in enumerate(triples + beyond)]
     t.run_cases(rc)
     for kind in uc.COLOR_KINDS[1:]:
-        sub = rc if chk.thorough else rng.sample(rc[:len(triples)], 500) + rc[len(triples):]
+        sub = rc if chk.big else rng.sample(rc[:len(triples)], 500) + rc[len(triples):]
         t.run_cases([Case(c.mode, c.regs, kind) for c in sub])
     # function level: float vs exact for the four conversions that involve colorsys
-    fl = triples if chk.thorough else rng.sample(triples, 1500)
+    fl = triples if chk.big else rng.sample(triples, 1500)
     t.function_level('rgb_to_raw', [(r, g, b, 2700) for r, g, b in fl])
     t.function_level('rgb_to_logical', [(r, g, b, 2700) for r, g, b in fl])
     lg = [(grid[(i * 17) % n], grid[(i * 7 + 3) % n], grid[(i * 13 + 5) % n], 2700)
-          for i in range(0, n, 1 if chk.thorough else 3)]
+          for i in range(0, n, 1 if chk.big else 3)]
     t.function_level('logical_to_raw', lg)
     t.function_level('logical_to_rgb', [c for c in lg if 0 <= c[0] <= 360 and 0 <= c[1] <= 100
                                         and 0 <= c[2] <= 100])
@@ -510,7 +513,7 @@ def main():
     chk.coverage['distribution'] = t.stats
     chk.coverage['knife_edge_cases'] = t.knife_oracle + t.knife_model
     chk.coverage['max_float_gap'] = t.max_gap
-    chk.coverage['exhaustive'] = chk.thorough
+    chk.coverage['exhaustive'] = chk.big
     chk.coverage['rule'] = (
         '{} raw values of each component ({}) through raw->logical->raw (get/set on a device) and '
         'through light, group, location, all, zone and matrix-cell commands; logical values on a '
@@ -519,8 +522,8 @@ def main():
         'durations through all ten command kinds (set/on/off x light, group, location, all, zone, '
         'matrix) in three unit modes; every value is sent by a real script through ScriptJob; '
         'non-trivial = distinct (mode, kind, register contents)'.format(
-            len(raws), 'all' if chk.thorough else 'every 16th + boundaries',
-            '1/64' if chk.thorough else '1/4 (+600 random multiples of 1/64)', steps))
+            len(raws), 'all' if chk.big else 'every 16th + boundaries',
+            '1/64' if chk.big else '1/4 (+600 random multiples of 1/64)', steps))
     chk.sample({'script': 'units logical hue 120 saturation 50 brightness 25.5 duration 2 set "A"',
                 'transmitted': [21845, 32768, 16711, 0], 'duration_ms': 2000})
     chk.sample({'raw_logical_raw': 'raw 65535 read back in logical units is hue 360 and re-sent as 0'})
